@@ -24,11 +24,38 @@ def Kind.inst (wd : Nat → Nat) : Kind → LeafInst
   | .sub a b r => { kind := "Sub", cfg := [[(wd r : Int)]], ins := [a, b], inls := [], outs := [r], outls := [], st0 := [], isProp := true, isClk := false }
   | .mul a b r => { kind := "Mul", cfg := [], ins := [a, b], inls := [], outs := [r], outls := [], st0 := [], isProp := true, isClk := false }
   | .range a hi lo r => { kind := "Range", cfg := [[(hi : Int)], [(lo : Int)]], ins := [a], inls := [], outs := [r], outls := [], st0 := [], isProp := true, isClk := false }
+  | .catm ins r => { kind := "ConcatenateMSBF", cfg := [], ins := [], inls := [ins], outs := [r], outls := [], st0 := [], isProp := true, isClk := false }
+  | .catl ins r => { kind := "ConcatenateLSBF", cfg := [], ins := [], inls := [ins], outs := [r], outls := [], st0 := [], isProp := true, isClk := false }
+  | .sext a r => { kind := "SignExtend", cfg := [[(wd a : Int)], [(wd r : Int)]], ins := [a], inls := [], outs := [r], outls := [], st0 := [], isProp := true, isClk := false }
+  | .smul a b r => { kind := "SignedMul", cfg := [[(wd a : Int)], [(wd b : Int)], [(wd r : Int)]], ins := [a, b], inls := [], outs := [r], outls := [], st0 := [], isProp := true, isClk := false }
+  | .rept i r => { kind := "Repeat", cfg := [[(wd r : Int)]], ins := [i], inls := [], outs := [r], outls := [], st0 := [], isProp := true, isClk := false }
 
 /-- the puts of the IR leaf are the puts of the `CLeaf` the theorems are stated over -/
-theorem kind_inst_prop (wd width : Nat → Nat) (k : Kind) (v : Val) (s : LSt) :
-    (((k.inst wd).sem width).prop v s).2 = [((k.leaf wd).out, (k.leaf wd).py ((k.leaf wd).ins.map v))] := by
+theorem zip_map_self' {α β γ : Type} (ins : List α) (V : α → β) (h : α × β → γ) :
+    (ins.zip (ins.map V)).map h = ins.map fun x => h (x, V x) := by
+  induction ins with
+  | nil => rfl
+  | cons a l ih => simp [ih]
+
+theorem kind_inst_prop (wd : Nat → Nat) (k : Kind) (v : Val) (s : LSt) :
+    (((k.inst wd).sem wd).prop v s).2 = [((k.leaf wd).out, (k.leaf wd).py ((k.leaf wd).ins.map v))] := by
   cases k
+  case catm ins r =>
+    simp [Kind.inst, Kind.leaf, LeafInst.sem, LeafInst.call, Gen.dynStep, zipPuts, zipPutLs, Gen.ConcatenateMSBF.dyn,
+      Gen.ConcatenateMSBF.step, Id.run, pure, zip_map_self']
+  case catl ins r =>
+    simp [Kind.inst, Kind.leaf, LeafInst.sem, LeafInst.call, Gen.dynStep, zipPuts, zipPutLs, Gen.ConcatenateLSBF.dyn,
+      Gen.ConcatenateLSBF.step, Id.run, pure, zip_map_self']
+  case sext a r =>
+    simp [Kind.inst, Kind.leaf, LeafInst.sem, LeafInst.call, Gen.dynStep, zipPuts, zipPutLs, g, Gen.SignExtend.dyn,
+      Gen.SignExtend.step, Id.run, pure]
+  case smul a b r =>
+    simp [Kind.inst, Kind.leaf, LeafInst.sem, LeafInst.call, Gen.dynStep, zipPuts, zipPutLs, g, Gen.SignedMul.dyn,
+      Gen.SignedMul.step, Id.run, pure]
+  case rept i r =>
+    by_cases h : Py.truthy ((v i : Nat) : Int) = true <;>
+      simp [Kind.inst, Kind.leaf, LeafInst.sem, LeafInst.call, Gen.dynStep, zipPuts, zipPutLs, g, Gen.Repeat.dyn,
+        Gen.Repeat.step, Id.run, pure, h]
   case mux2 sel s0 s1 r =>
     by_cases h : Py.truthy (Py.land ((v sel : Nat) : Int) 1) = true <;>
       simp [Kind.inst, Kind.leaf, LeafInst.sem, LeafInst.call, Gen.dynStep, zipPuts, zipPutLs, g, Gen.Mux2.dyn,
